@@ -11,7 +11,14 @@ import (
 
 var stdPvcs = []Pvc{{N: "pvc-a", D: "csi-1"}, {N: "pvc-b", D: "csi-1"}, {N: "pvc-c", D: "csi-2"}, {N: "pvc-d", D: "csi-1", V: "pv"}, {N: "pvc-m", D: ""}}
 
+// densePvcs: the storage world of the "dense" histories: six claims of ONE driver (two of them bound to a PV), so that a
+// node can carry several pods that mount different volumes of the same driver.
+var densePvcs = []Pvc{{N: "pvc-a", D: "csi-1"}, {N: "pvc-b", D: "csi-1"}, {N: "pvc-c", D: "csi-2"}, {N: "pvc-d", D: "csi-1", V: "pv"},
+	{N: "pvc-e", D: "csi-1"}, {N: "pvc-f", D: "csi-1"}, {N: "pvc-g", D: "csi-1", V: "pv"}, {N: "pvc-m", D: ""}}
+
 type gstate struct {
+	dense  bool  // many pods with volumes of one driver / host ports on one or two nodes, mostly pod events
+	pvcs   []Pvc // the storage world pods draw their volumes from
 	r      *rand.Rand
 	ev     []Ev
 	nodes  map[string]*Ev
@@ -105,7 +112,12 @@ func (g *gstate) capVec() []int64 {
 func (g *gstate) limits() []Limit {
 	r := g.r
 	var out []Limit
-	if r.Float64() < 0.7 {
+	if g.dense {
+		// the probes tell k accounted volumes from k+1 when limit-k is in 0..3: keep the limit near the pod count
+		if r.Float64() < 0.92 {
+			out = append(out, Limit{D: "csi-1", N: int32(r.IntN(8))})
+		}
+	} else if r.Float64() < 0.7 {
 		out = append(out, Limit{D: "csi-1", N: int32(r.IntN(4))})
 	}
 	if r.Float64() < 0.3 {
@@ -324,8 +336,12 @@ func (g *gstate) podBody(e *Ev) {
 		e.Ports = append(e.Ports, pick(r, portUniverse...))
 	}
 	e.Vols = nil
-	for r.Float64() < 0.45 && len(e.Vols) < 3 {
-		e.Vols = append(e.Vols, stdPvcs[r.IntN(len(stdPvcs))].N)
+	pv := 0.45
+	if g.dense {
+		pv = 0.65
+	}
+	for r.Float64() < pv && len(e.Vols) < 3 {
+		e.Vols = append(e.Vols, g.pvcs[r.IntN(len(g.pvcs))].N)
 	}
 }
 
@@ -358,6 +374,9 @@ func (g *gstate) podEvent() {
 		} else if r.Float64() < 0.05 {
 			e.Phase = pick(r, "Succeeded", "Failed")
 		}
+		if r.Float64() < 0.04 {
+			e.Del = true // first seen while already terminating
+		}
 		g.emit(e)
 		return
 	}
@@ -365,11 +384,15 @@ func (g *gstate) podEvent() {
 	switch {
 	case x < 0.2:
 		g.emit(Ev{T: "podGone", Name: name})
-	case x < 0.35: // completes
+	case x < 0.32: // completes
 		e := *cur
 		e.Phase = pick(r, "Succeeded", "Failed")
 		g.emit(e)
-	case x < 0.5: // gets bound / stays
+	case x < 0.44: // graceful deletion starts: deletionTimestamp set, phase and binding unchanged (stays set on later updates)
+		e := *cur
+		e.Del = true
+		g.emit(e)
+	case x < 0.56: // gets bound / stays
 		e := *cur
 		if e.Node == "" {
 			e.Node = g.someNodeName()
@@ -378,7 +401,7 @@ func (g *gstate) podEvent() {
 			}
 		}
 		g.emit(e)
-	case x < 0.62: // annotation / priority / resize in place
+	case x < 0.68: // annotation / priority / resize in place
 		e := *cur
 		keepNode, keepPhase := e.Node, e.Phase
 		vols, ports := e.Vols, e.Ports
@@ -444,7 +467,25 @@ func genHistory(r *rand.Rand, t core.Tier) any {
 	g.nm = 1 + r.IntN(3)
 	g.np = 1 + r.IntN(5)
 	g.malf = r.Float64() < 0.05
+	g.pvcs = stdPvcs
 	n := 8 + r.IntN(maxLen)
+	// 30%: a dense history: 1-2 machines, 4-7 pod names, six claims of one CSI driver, limits 0..7, 80% pod events; starts with
+	// a tracked node so that the pods land on it
+	pNode, pClaim := 0.3, 0.55
+	if !g.malf && r.Float64() < 0.3 {
+		g.dense = true
+		g.pvcs = densePvcs
+		g.nm = 1 + r.IntN(2)
+		g.np = 4 + r.IntN(4)
+		n = 20 + r.IntN(maxLen)
+		pNode, pClaim = 0.1, 0.18
+		e := Ev{T: "node", Name: "n1", Pid: "p1", Cap: g.capVec(), Lim: g.limits(), It: true}
+		if r.Float64() < 0.7 {
+			e.Pool, e.Reg, e.Init = "a", true, true
+		}
+		g.emitNode(e)
+		g.emit(Ev{T: "rn", Name: "n1"})
+	}
 	// a lazy informer (long dirty periods) or an eager one
 	pRec := 0.25 + 0.4*r.Float64()
 	for len(g.ev) < n {
@@ -459,9 +500,9 @@ func genHistory(r *rand.Rand, t core.Tier) any {
 		default:
 			y := r.Float64()
 			switch {
-			case y < 0.3:
+			case y < pNode:
 				g.nodeEvent()
-			case y < 0.55:
+			case y < pClaim:
 				g.claimEvent()
 			default:
 				g.podEvent()
@@ -469,14 +510,15 @@ func genHistory(r *rand.Rand, t core.Tier) any {
 		}
 	}
 	g.settle()
-	return In{Pvcs: stdPvcs, Ev: g.ev}
+	return In{Pvcs: g.pvcs, Ev: g.ev}
 }
 
 // ---------- exhaustive small scope: every delivery order of the reconciles that settle a fixed API script ----------
 
 type script struct {
 	name string
-	pre  []Ev // API changes and reconciles that are delivered in the given order
+	pvcs []Pvc // nil = stdPvcs
+	pre  []Ev  // API changes and reconciles that are delivered in the given order
 	// the keys left dirty by `pre` are then reconciled in every order
 }
 
@@ -491,6 +533,10 @@ func scripts() []script {
 	podA := Ev{T: "pod", Name: "x1", Node: "n1", Req: []int64{100, 128, 0}, Ports: []Port{{"", 80, "TCP"}}, Vols: []string{"pvc-a"}, Dc: pi64(1 << 27)}
 	podDs := Ev{T: "pod", Name: "x2", Node: "n1", Req: []int64{250, 0, 0}, Ds: true}
 	with := func(e Ev, f func(*Ev)) Ev { f(&e); return e }
+	nodeLim3 := with(nodeFull, func(e *Ev) { e.Lim = []Limit{{D: "csi-1", N: 3}} })
+	podVol := func(name, pvc string) Ev {
+		return Ev{T: "pod", Name: name, Node: "n1", Req: []int64{100, 128, 0}, Vols: []string{pvc}}
+	}
 	return []script{
 		{name: "create-all", pre: []Ev{claim, nodeFull, podA, podDs}},
 		{name: "claim-update-after-settle", pre: []Ev{claim, nodeFull, podA, podDs, {T: "rc", Name: "c1"}, {T: "rn", Name: "n1"}, {T: "rp", Name: "x1"}, {T: "rp", Name: "x2"},
@@ -503,6 +549,19 @@ func scripts() []script {
 			{T: "podGone", Name: "x1"}, {T: "podGone", Name: "x2"}, {T: "nodeGone", Name: "n1"}, {T: "claimGone", Name: "c1"}}},
 		{name: "claim-deleting-node-stays", pre: []Ev{claim, nodeFull, podA, {T: "rc", Name: "c1"}, {T: "rn", Name: "n1"}, {T: "rp", Name: "x1"}, {T: "nominate", Pid: "p1"},
 			with(claim, func(e *Ev) { e.Del = true }), with(nodeFull, func(e *Ev) { e.Del = true }), with(podA, func(e *Ev) { e.Phase = "Succeeded" })}},
+		// a gracefully terminating pod (deletionTimestamp set, still Running and bound) keeps counting, whichever of the Pod
+		// and Node deliveries comes last
+		{name: "pods-terminating", pre: []Ev{claim, nodeFull, podA, podDs, {T: "rc", Name: "c1"}, {T: "rn", Name: "n1"}, {T: "rp", Name: "x1"}, {T: "rp", Name: "x2"},
+			with(podA, func(e *Ev) { e.Del = true }), with(podDs, func(e *Ev) { e.Del = true }), with(nodeFull, func(e *Ev) { e.Cap = capB })}},
+		{name: "pod-first-seen-terminating", pre: []Ev{nodeFull, with(podA, func(e *Ev) { e.Del = true }), with(podVol("x3", "pvc-b"), func(e *Ev) { e.Del = true }), claim}},
+		// several pods mounting different volumes of ONE driver on one node; the pods go away one by one with only Pod deliveries
+		{name: "volumes-one-driver-pods-leave", pvcs: densePvcs, pre: []Ev{nodeLim3, podVol("x1", "pvc-a"), podVol("x2", "pvc-b"), podVol("x3", "pvc-e"), podVol("x4", "pvc-g"),
+			{T: "rn", Name: "n1"}, {T: "rp", Name: "x1"}, {T: "rp", Name: "x2"}, {T: "rp", Name: "x3"}, {T: "rp", Name: "x4"},
+			{T: "podGone", Name: "x1"}, {T: "podGone", Name: "x2"}, with(podVol("x3", "pvc-e"), func(e *Ev) { e.Phase = "Succeeded" })}},
+		// ... and with a re-delivered / changed pod in between (VolumeUsage.Add of a tracked key)
+		{name: "volumes-one-driver-pod-readded", pvcs: densePvcs, pre: []Ev{nodeLim3, podVol("x1", "pvc-a"), podVol("x2", "pvc-b"), podVol("x3", "pvc-e"), podVol("x4", "pvc-g"),
+			{T: "rn", Name: "n1"}, {T: "rp", Name: "x1"}, {T: "rp", Name: "x2"}, {T: "rp", Name: "x3"}, {T: "rp", Name: "x4"},
+			podVol("x1", "pvc-f"), {T: "podGone", Name: "x2"}, {T: "podGone", Name: "x4"}}},
 		{name: "registration", pre: []Ev{claim, {T: "rc", Name: "c1"}, with(nodeFull, func(e *Ev) { e.Reg = false; e.Init = false; e.Cap = []int64{0, 0, 0, 0} }), podDs, {T: "rn", Name: "n1"},
 			with(nodeFull, func(e *Ev) { e.Init = false }), podA, with(claim, func(e *Ev) {})}},
 	}
@@ -540,7 +599,11 @@ func enumHistory(core.Tier) []any {
 			for _, k := range perm {
 				ev = append(ev, Ev{T: "r" + k[:1], Name: k[2:]})
 			}
-			out = append(out, In{Pvcs: stdPvcs, Ev: ev})
+			pvcs := s.pvcs
+			if pvcs == nil {
+				pvcs = stdPvcs
+			}
+			out = append(out, In{Pvcs: pvcs, Ev: ev})
 		}
 	}
 	return out
